@@ -171,11 +171,9 @@ def tls_packets(ci, conn, ep, tcp):
         if not segs:
             break
         i %= nseg
-        if not t.get("allow_first_record_moves") and not segs[i]["srv"] and segs[i]["off"] < first_rec_end:
-            excluded += 1      # open finding F05r: reordering inside the client's first record (see known_findings.json)
-            continue
         k = [k for k, it in enumerate(seq_items) if it == ("seg", i)][0]
         srv = segs[i]["srv"]
+        saved_items = list(seq_items)
         for _ in range(d):
             nxt = [m for m in range(k + 1, len(seq_items)) if segs[seq_items[m][1]]["srv"] == srv]
             if not nxt:
@@ -189,6 +187,11 @@ def tls_packets(ci, conn, ep, tcp):
             it = seq_items.pop(k)
             seq_items.insert(m, it)
             k = m
+        if not t.get("allow_first_record_moves") and not srv and first_rec_end and _f05r_risk(seq_items, segs):
+            # open finding F05r (see known_findings.json): a part of the client's first record that is captured before the beginning of
+            # that record and by itself frames as complete TLS records; every other reordering inside the ClientHello is generated
+            seq_items[:] = saved_items
+            excluded += 1
     # coalescing retransmissions: [i, n, j] -> the data of segment i and the next n segments of its direction is sent again as ONE segment
     # (same sequence number as segment i, longer payload), captured j+1 positions after the last of them - only data already captured
     for i, n, j in t.get("redups", []):
@@ -261,6 +264,42 @@ def tls_packets(ci, conn, ep, tcp):
         pk.append(LPkt(ci, "tcp", False, b"", ep, nxt[False], nxt[True], 0x14, "RST"))
     tls_packets.excluded = getattr(tls_packets, 'excluded', 0) + excluded
     return pk, segs
+
+
+def _frames_as_records(data):
+    """the record framing loop of a reassembler that starts at data[0]: True iff the length fields chain exactly to the end"""
+    idx, n = 0, len(data)
+    if not n:
+        return False
+    while True:
+        if n - idx == 0:
+            return True
+        if n - idx < 5:
+            return False
+        idx += int.from_bytes(data[idx + 3:idx + 5], "big") + 5
+
+
+def _f05r_risk(seq_items, segs):
+    """client segments captured before the segment at stream offset 0: does the contiguous run from the lowest of them frame as records
+    at any moment?"""
+    arrived = []
+    for _, i in seq_items:
+        sg = segs[i]
+        if sg["srv"]:
+            continue
+        if sg["off"] == 0:
+            return False
+        arrived.append(sg)
+        run = sorted(arrived, key=lambda x: x["off"])
+        data, expect = b"", run[0]["off"]
+        for x in run:
+            if x["off"] > expect:
+                break
+            data += x["data"][max(0, expect - x["off"]):]
+            expect = max(expect, x["off"] + len(x["data"]))
+        if _frames_as_records(data):
+            return True
+    return False
 
 
 def _hs_end_offsets(conn):
@@ -495,14 +534,16 @@ def write_capture(b, workdir, pkts=None, container=None, keys=None, name="in"):
             dsbs.append(("dsb", keylog_text(lines, kk).encode()))
         pre_idb = []
         if dsbs:
-            if k["dsb_pos"] == "before_idb":      # a DSB may precede the interface description block
-                pre_idb = dsbs
-            elif k["dsb_pos"] == "first":
-                items = dsbs + items
-            else:   # spread: positions derived from the seed (TLS-only captures may have them anywhere)
-                rnd = random.Random(k.get("seed", 0) + 99)
-                for d in dsbs:
+            # one placement for all blocks, or one per block: before the interface description block, first behind it, or anywhere
+            # (positions derived from the seed; secrets of TLS connections may come anywhere, those of QUIC connections come in front)
+            pos = k["dsb_pos"] if isinstance(k["dsb_pos"], list) else [k["dsb_pos"]] * len(dsbs)
+            rnd = random.Random(k.get("seed", 0) + 99)
+            front = [d for d, p_ in zip(dsbs, pos) if p_ == "first"]
+            pre_idb = [d for d, p_ in zip(dsbs, pos) if p_ == "before_idb"]
+            for d, p_ in zip(dsbs, pos):
+                if p_ not in ("first", "before_idb"):
                     items.insert(rnd.randrange(len(items) + 1), d)
+            items = front + items
         # unrelated blocks
         def other_block(btype, blen):
             body = bytes((7 * i + btype) & 0xFF for i in range(blen))
